@@ -64,6 +64,7 @@ var initWhitelist = map[string]bool{
 	"github.com/asticode/go-astikit": true,
 	"github.com/asticode/go-astits":  true,
 	"bufio":                          true,
+	"encoding/binary":                true,
 	"io":                             true,
 }
 
